@@ -189,8 +189,11 @@ AddShred(bs, w) ==
       consistent == \/ b1.last = -1
                     \/ (w.slice < b1.last /\ ~w.isLast)
                     \/ (w.slice = b1.last /\ w.isLast)
+      \* a slice beyond the one now declared last was already accepted (either arrival order is reported)
+      laterKnown == mark /\ \E s \in DOMAIN b1.cache : s > w.slice /\ b1.cache[s] # NoCommit
   IN
-  IF ~consistent THEN Flag(b1, "Equivocation")
+  IF laterKnown THEN Flag(b1, "Equivocation")
+  ELSE IF ~consistent THEN Flag(b1, "Equivocation")
   ELSE IF \E p \in b2.stored : p[1] = w.slice /\ p[2] = w.index THEN Out(b2, "Duplicate", <<>>)
   ELSE
   LET first == b2.stored = {}
